@@ -8,6 +8,8 @@ use crate::Error;
 #[cfg(kani)]
 mod kani_harnesses {
     use super::*;
+    // concrete counterexamples printed by Kani are replayed natively from this file (normally empty; written by vx/kanirun.py)
+    include!("/verif/.cache/playback/lib.rs");
 
     // N4 shim validation (units/lib/core.vxt u32_to_be_bytes / u32_from_be_bytes against be4 / be32): complete, all u32
     #[kani::proof]
